@@ -180,7 +180,7 @@ def build():
         setup_cmd='bin/setup',
         hooks=dict(guard='kiki_verif', enable='RUSTFLAGS="--cfg kiki_verif" (set by lib/vlib.py when it builds harness/ against /repo/kiki)',
                    baseline_off_cmd='cd /repo && cargo test --workspace --no-fail-fast --offline',
-                   source_commits=['49ac09d'], add_only=True),
+                   source_commits=['49ac09d', '31a77b9'], add_only=True),
         engines=[dict(name='coq+correspondence', path='/verif/coq, /verif/lib, /verif/harness, /verif/ocaml',
                       serves_properties=sorted(CLAIMED),
                       kind_free_text='Coq 8.16.1 development (hand-written executable model + regenerated tables/template) with '
